@@ -256,10 +256,20 @@ def run_scenario(sc: dict):
             stop_at = sc.get("baseline_len", 1.5)
         cond = sc.get("cond", ["healthy"])
         lead = sc.get("lead", 0.0)
+        applied = []
+
+        def cond_once():
+            if not applied:
+                applied.append(1)
+                apply_cond(cond)
         if cond[0] != "healthy":
-            loop.call_at(t0 + max(0.0, stop_at - lead), apply_cond, cond, context=cl.ctx)
+            loop.call_at(t0 + max(0.0, stop_at - lead), cond_once, context=cl.ctx)
         await asyncio.sleep(max(0.0, t0 + stop_at - loop.time()))
         loop.iter_log = None
+        if cond[0] != "healthy" and not applied:
+            # the condition is due at this very instant: it holds BEFORE stop() is called (the measured
+            # reachability below must describe the cluster stop() actually meets)
+            cl.ctx.run(cond_once)
 
         # ---- stop -------------------------------------------------------------------------------------------
         g = gsim.group(GROUP)
